@@ -402,6 +402,7 @@ pub fn eval_root_pair<P: PType, A: Side<P>, B: Side<P>>(
         return out;
     };
     eval_ro::<P, A::V, B::V>(&va, &vb, A::val, B::val, &exp, qa, qb, lim, cnt, &mut out);
+    let ro_union: Vec<GK> = va.union(vb.clone()).take(lim).map(|i| i.prefix().raw()).collect();
     drop((va, vb));
     // ================================================================ mutable twins
     // expected read-only sequences (prefix key, left value, right value)
@@ -433,6 +434,13 @@ pub fn eval_root_pair<P: PType, A: Side<P>, B: Side<P>>(
             let prop = if presence(&got) == presence(&union_seq) { "C13" } else { "C05" };
             out.push(Viol::new(prop, "TrieViewMut::union_mut", "yield-sequence", format!("roots {:x?} | {:x?}: union_mut yields {:x?}, union yields {:x?}", qa, qb, got, union_seq)));
         } else {
+            // the mutable traversal yields the same prefixes as the read-only one, representation included
+            {
+                let mu: Vec<GK> = held.iter().map(|x| x.1).collect();
+                if ro_union != mu {
+                    out.push(Viol::new("C13", "TrieViewMut::union_mut", "prefix-differs-from-read-only-traversal", format!("roots {:x?} | {:x?}: union_mut yields prefixes {:x?}, union yields {:x?}", qa, qb, mu, ro_union)));
+                }
+            }
             for ((_, raw, l, r), e) in held.iter().zip(exp.iter()) {
                 let ok = match (l.is_some(), r.is_some()) {
                     (true, false) => Some(*raw) == e.l.map(|o| (o.0, o.1)),
